@@ -37,7 +37,8 @@ class Holder:
 
 @register_pretty(Holder)
 def pretty_holder(h, ctx):
-    if h.style == 'call':
+    if h.style == 'call' and not any(k in ('ctx', 'fn') for k, _ in h.kwargs):
+        # (keyword arguments called 'ctx' / 'fn' cannot be passed through pretty_call's own signature: pretty_call_alt is the documented way)
         return pretty_call(ctx, h.fn, *h.args, **dict(h.kwargs))
     if h.style == 'alt-dict':
         return pretty_call_alt(ctx, h.fn, args=tuple(h.args), kwargs=dict(h.kwargs))
@@ -75,7 +76,8 @@ def make_callable(module, qualname):
 
 CALLABLE_IDS = [('builtins', 'sorted'), ('builtins', 'dict'), ('__main__', 'main_fn'), ('__main__', 'Outer.Inner'), ('pkg', 'f'), ('pkg.sub.mod', 'Cls'),
                 ('pkg.sub.mod', 'Outer.Inner.deep'), ('a_very_long_package_name.with_a_long_module_name', 'AndALongClassName')]
-KWNAMES = ['a', 'b', 'zz', '_x', 'class_', 'é', 'value', 'a_rather_long_keyword_argument_name', 'k9', 'A']
+KWNAMES = ['a', 'b', 'zz', '_x', 'class_', 'é', 'value', 'a_rather_long_keyword_argument_name', 'k9', 'A',
+           'fn', 'ctx', 'args', 'kwargs', 'type', 'doc', 'indent', 'fndoc', 'argdocs', 'kwargdocs', 'hug_sole_arg', 'trailing_comment', 'key', 'default', 'object', 'end']
 
 
 def expected_name(module, qualname):
@@ -317,9 +319,12 @@ def gen_spec(rng, lib, uid):
             kind = 'factory'
         # a repr=False field without default could never be reconstructed from the printed call: outside the generator
         fields.append(('f%d' % i, kind, default, True if kind == 'none' else rng.random() < 0.75))
+    _names = rng.sample(['fn', 'ctx', 'args', 'kwargs', 'value', 'type', 'doc', 'cls', 'field_def', 'attribute', 'display_attr', 'default_value', 'kwarg', 'instance'], n) if rng.random() < 0.3 else None
     if not kw_only:
         fields.sort(key=lambda f: f[1] != 'none')      # fields without default first
         fields = [('f%d' % i, k, d, r) for i, (_, k, d, r) in enumerate(fields)]
+    if _names:
+        fields = [(_names[i], k, d, r) for i, (_, k, d, r) in enumerate(fields)]
     return {'lib': lib, 'name': ('DC%d' if lib == 'dc' else 'AT%d') % uid, 'fields': fields, 'frozen': rng.random() < 0.3, 'classvar': lib == 'dc' and rng.random() < 0.4,
             'slots': rng.random() < 0.3, 'kw_only': kw_only, 'eq': rng.random() < 0.8}
 
